@@ -149,7 +149,15 @@ func isStringType(t types.Type) bool {
 	return ok && b.Info()&types.IsString != 0
 }
 
+// allocBound: cells one path may allocate (64 bytes of engine memory per cell and more): a path that
+// goes beyond it is ended like one that exceeds its step bound (and probed natively).
+const allocBound = 24 << 20
+
 func (e *Exec) newBacking(n int, origin string) *Backing {
+	e.cellsAlloc += n
+	if e.cellsAlloc > allocBound {
+		panic(abortf("steps", "allocation bound of %d cells exceeded at %s", allocBound, e.curSite()))
+	}
 	e.nextObj++
 	return &Backing{cells: make([]Value, n), id: e.nextObj, origin: origin}
 }
